@@ -47,6 +47,7 @@ def generate(rng, tier, cls):
 
     n = len(recs)
     faults = []
+    long_header = False
     targets = list(range(n))
     rng.shuffle(targets)
     k = rng.weighted([(5, 1), (3, 2), (2, n)])
@@ -60,6 +61,10 @@ def generate(rng, tier, cls):
             if rng.chance(0.03):
                 # very long values: header lines beyond any line buffer
                 v = 'x' * rng.choice([200, 4090, 8100, 8200, 9000, 70000])
+            elif rng.chance(0.06):
+                # ... or just beyond one read-ahead block
+                v = 'y' * rng.randint(60, 330)
+                long_header = True
             faults.append({'kind': 'skew', 'file': 'f1', 'section': i,
                            'key': key, 'value': v, 'pos': rng.below(6)})
 
@@ -108,9 +113,16 @@ def generate(rng, tier, cls):
                            'pos': 100000})
 
     bs = rng.choice([None, None, 1, 7, 64, 97])
+    sk = gen.gen_stream(rng)[0]
+    sx = gen.gen_stream_extras(rng)
+
+    if long_header and rng.chance(0.4):
+        # ... read from a raw / packet-like stream
+        sk = rng.choice(['sim', 'minimal'])
+        sx['short_hdr'] = rng.randint(0, 999)
+
     return {'actors': [prod], 'schedule': [], 'faults': faults,
-            'block_size': bs, 'stream': gen.gen_stream(rng)[0],
-            'stream_extras': gen.gen_stream_extras(rng)}
+            'block_size': bs, 'stream': sk, 'stream_extras': sx}
 
 
 # options the specification defines for another kind of section, with a
